@@ -288,7 +288,41 @@ def tag(c, r):
 
 # ------------------------------------------------------------------ model comparison
 
+def patch_boundary_edges(faces):
+    """directed boundary edges of every edge-connected patch, and whether every boundary vertex is entered once and left once;
+    None for non-manifold input"""
+    byedge = {}
+    for i, (a, b, cc) in enumerate(faces):
+        for e in ((a, b), (b, cc), (cc, a)):
+            byedge.setdefault(ukey(*e), []).append(i)
+    if any(len(v) > 2 for v in byedge.values()):
+        return None
+    pairs = [(fs[0], x) for fs in byedge.values() for x in fs[1:]]
+    want = []
+    for comp in components(len(faces), pairs):
+        cnt = {}
+        for i in comp:
+            a, b, cc = faces[i]
+            for e in ((a, b), (b, cc), (cc, a)):
+                cnt[ukey(*e)] = cnt.get(ukey(*e), 0) + 1
+        for i in comp:
+            a, b, cc = faces[i]
+            want += [e for e in ((a, b), (b, cc), (cc, a)) if cnt[ukey(*e)] == 1]
+    outs, ins = {}, {}
+    for e in want:
+        outs[e[0]] = outs.get(e[0], 0) + 1
+        ins[e[1]] = ins.get(e[1], 0) + 1
+    return want, all(v == 1 for v in outs.values()) and all(v == 1 for v in ins.values())
+
+
 def coq_check(c, r):
+    if c["k"] == "c12.patch_boundaries":
+        # only for boundaries that are disjoint directed cycles (the theorem's hypothesis); the successor map is computed here
+        info = patch_boundary_edges([tuple(f) for f in c["faces"]])
+        if info is None or not info[1] or any(run.get("err") for run in r["runs"]):
+            return None
+        m = [(int(a), int(b)) for a, b in info[0]]
+        return "check_patch_loops %s %s" % (coq(m), coq([[int(v) for v in lp] for lp in r["runs"][0]["loops"]]))
     k = c["k"]
     if isinstance(r, dict) and (r.get("timeout") or r.get("panic")):
         return "1000%Z"   # the model always terminates without panic
